@@ -13,7 +13,7 @@ MD_LINES = ['# Title', 'Some *text* here.', '', '## Section', '- item one', '- i
 B64 = ['iVBORw0KGgoAAAANSUhEUgAAAAEAAAABCAYAAAAfFcSJAAAADUlEQVR42mNkYPhfDwAChwGA60e6kgAAAABJRU5ErkJggg==',
        'R0lGODlhAQABAIAAAAAAAP///yH5BAEAAAAALAAAAAABAAEAAAIBRAA7R0lGODlhAQABAIAAAAAAAP///yH5BAEAAAAALAAAAAAB',
        'iVBORw0KGgoAAAANSUhEUgAAAAIAAAACCAYAAABytg0kAAAAFElEQVR42mP8z8BQz0AEYBxVSF+FABJADveWkH6oAAAAAElFTkSu']
-IDCHARS = 'abcdefghijklmnopqrstuvwxyz0123456789'
+IDCHARS = 'abcdefghijklmnopqrstuvwxyzABCDEFGHIJKLMNOPQRSTUVWXYZ0123456789-_'
 
 
 @functools.lru_cache(None)
@@ -50,8 +50,11 @@ def text(rng, pool, maxlines=6, final_nl=None):
 
 
 def new_id(rng, used):
+    # nbformat 4.5 cell ids: 1..64 characters of [a-zA-Z0-9-_]; hash-style ids use the full length
+    r = rng.random()
+    n = 64 if r < 0.12 else rng.randint(51, 63) if r < 0.18 else rng.randint(1, 3) if r < 0.22 else 8
     while True:
-        i = ''.join(rng.choice(IDCHARS) for _ in range(8))
+        i = ''.join(rng.choice(IDCHARS) for _ in range(n))
         if i not in used:
             used.add(i)
             return i
@@ -72,8 +75,15 @@ def gen_metadata_extra(rng, depth=2):
     return {k: gen_metadata_extra(rng, depth - 1) for k in rng.sample(['p', 'q', 'r', 'foo'], rng.choice([1, 2]))}
 
 
+FALSY = [False, None, '', [], {}, 0]
+
+
 def gen_cell_metadata(rng, ctype):
     md = {}
+    if rng.random() < 0.12:
+        md['flag'] = copy.deepcopy(rng.choice(FALSY))
+    if rng.random() < 0.1:
+        md['grid'] = [[rng.randrange(9) for _ in range(rng.choice([0, 1, 2]))] for _ in range(rng.choice([1, 2, 3]))]
     if ctype == 'code':
         if rng.random() < 0.25:
             md['collapsed'] = rng.choice([True, False])
@@ -212,6 +222,16 @@ def edit_cell(rng, c, what=None):
             md['collapsed'] = not md.get('collapsed', False)
         elif r < 0.7:
             md['tags'] = sorted(set(md.get('tags', [])) ^ {rng.choice(['t1', 't3', 'new'])}) or ['t9']
+        elif r < 0.88 and isinstance(md.get('grid'), list):
+            # a list of lists gains (or loses) an array-valued item
+            g = md['grid']
+            if g and rng.random() < 0.3:
+                del g[rng.randrange(len(g))]
+            else:
+                g.insert(rng.randrange(len(g) + 1), rng.choice([[], [7], [7, 8], [[1], 2]]))
+        elif r < 0.8:
+            # one empty / falsy value replaced by a different one
+            md['flag'] = copy.deepcopy(rng.choice([v for v in FALSY if type(v) is not type(md.get('flag', 1)) or v != md.get('flag', 1)]))
         else:
             md[rng.choice(['foo', 'extra'])] = gen_metadata_extra(rng)
     elif k == 'execution_count' and c['cell_type'] == 'code':
@@ -364,7 +384,7 @@ def fixture_notebooks():
 
 # ------------------------------------------------------------------ targeted three-way scenarios
 SCENARIOS = ['concurrent-insert', 'concurrent-insert', 'delete-vs-edit', 'same-line', 'different-lines', 'both-outputs', 'both-metadata',
-             'insert-next-to-edit', 'delete-vs-transient', 'same-change', 'both-nbmeta', 'both-attachments', 'minor', 'replace-vs-transient', 'remove-output-vs-transient']
+             'insert-next-to-edit', 'delete-vs-transient', 'same-change', 'both-nbmeta', 'both-attachments', 'minor', 'replace-vs-transient', 'remove-output-vs-transient', 'dup-around-shared']
 
 
 def similar_cell(rng, c, used):
@@ -432,6 +452,29 @@ def triple_scenario(rng, minor=None, first=None):
             a, b_ = (l, r) if rng.random() < 0.5 else (r, l)
             del a['cells'][i]
             edit_cell(rng, b_['cells'][i], rng.choice(['source', 'source', 'metadata', 'outputs']) if b_['cells'][i]['cell_type'] == 'code' else 'source')
+            break
+        elif sc == 'dup-around-shared':
+            # both sides insert the same piece at one position; one side surrounds it with two identical runs
+            # (blank lines, separators, identical stream outputs): two equal one-sided decisions
+            i = rng.choice(common)
+            a, b_ = (l, r) if rng.random() < 0.5 else (r, l)
+            ca, cb = a['cells'][i], b_['cells'][i]
+            if ca['cell_type'] == 'code' and rng.random() < 0.4:
+                dup = {'output_type': 'stream', 'name': 'stdout', 'text': rng.choice(['----\n', '\n', 'sep\n'])}
+                shared = {'output_type': 'stream', 'name': 'stderr', 'text': 'shared %d\n' % rng.randrange(9)}
+                p_ = rng.randrange(len(ca['outputs']) + 1)
+                ca['outputs'][p_:p_] = [copy.deepcopy(dup), copy.deepcopy(shared), copy.deepcopy(dup)]
+                cb['outputs'][p_:p_] = [copy.deepcopy(shared)]
+            else:
+                lines = ca['source'].splitlines(True)
+                if lines and not lines[-1].endswith('\n'):
+                    lines[-1] += '\n'
+                p_ = rng.randrange(len(lines) + 1)
+                dup = rng.choice(['\n', '---\n', '# sep\n'])
+                shared = 'import shared%d\n' % rng.randrange(9)
+                ca['source'] = ''.join(lines[:p_] + [dup, shared, dup] + lines[p_:])
+                cb['source'] = ''.join(lines[:p_] + [shared] + lines[p_:])
+                base['cells'][i]['source'] = ''.join(lines)
             break
         elif sc == 'delete-vs-transient':
             i = rng.choice(common)
